@@ -219,6 +219,7 @@ func lastMapOn(p *Path) string {
 
 func propC13(c *Ctx) {
 	c.Clauses = append(c.Clauses,
+		"AddValidator inserts only a consensus key whose type the consensus params allow (unrestricted, or equal to a listed type)",
 		"writers of Validators / ValidatorsByConsAddr / LastValidatorPowers are exactly the tabled helpers",
 		"index pairing: every insertion of a validator record is followed on success by the consensus-key index entry for the same record; Validators.Remove is paired with removal of that record's consensus-key index entry",
 		"AddValidator inserts only when the operator is absent, the consensus key is absent and len(all) < MaxValidators",
